@@ -89,6 +89,16 @@ def drive(binary, seed, n, out, only=None):
     return json.loads(so.strip().splitlines()[-1])
 
 
+def trace_cfgs(prop):
+    """(strict, relaxed) config texts judging only this property's invariants (another property's invariant,
+    violated in the same state, must not mask them)."""
+    invs = [n for n, ps in INV_PROPS.items() if prop in ps]
+    def one(strict):
+        return ("CONSTANTS\n DedupAtPop = TRUE\n CaptureUnderLock = TRUE\n TraceMode = TRUE\n Strict = %s\nSPECIFICATION TraceSpec\n"
+                "INVARIANTS %s\nCONSTRAINT HW\nPOSTCONDITION Accepted\nCHECK_DEADLOCK FALSE\n" % (strict, " ".join(invs)))
+    return one("TRUE"), one("FALSE")
+
+
 def corrupt(prop):
     """One recorded field changed / one hook event removed; the validator must notice (binding self-test)."""
     def f(lines):
@@ -131,7 +141,7 @@ def run(prop, tier, seed, replay=None):
         s, n, only = job
         out = os.path.join(wd, "trace-%d.ndjson" % s)
         st = drive(binary, s, n, out, only)
-        tv = vlib.validate_trace("Trace_Traversal", ("Trace_Traversal.cfg", "Trace_Traversal_relaxed.cfg"), out, INV_PROPS)
+        tv = vlib.validate_trace("Trace_Traversal", trace_cfgs(prop), out, INV_PROPS)
         return s, out, st, tv
 
     with ThreadPoolExecutor(max_workers=min(len(jobs), max(1, vlib.NCPU // 2))) as ex:
@@ -139,7 +149,7 @@ def run(prop, tier, seed, replay=None):
     deviations = 0
     hang_tried = 0
     if not replay and results:
-        st_ = vlib.binding_selftest("Trace_Traversal", ("Trace_Traversal.cfg", "Trace_Traversal_relaxed.cfg"), results[0][1], corrupt(prop), INV_PROPS)
+        st_ = vlib.binding_selftest("Trace_Traversal", trace_cfgs(prop), results[0][1], corrupt(prop), INV_PROPS)
         cov["binding_selftest"] = st_
         log("  binding self-test: %s -> %s" % (st_["what"], "rejected, as required" if st_["detected"] else "NOT NOTICED"))
         if not st_["detected"]:
